@@ -41,7 +41,9 @@ pub fn string_alphabet(pos: Pos) -> Vec<String> {
         Pos::Header | Pos::Meta => vec![s("a b"), s("a  b"), s("a,b"), s("a;b=\"c\""), s("%41"), s("+"), "h".repeat(255)],
         Pos::Query => vec![s(""), s("a b"), s("a+b"), s("a%b"), s("a&b=c"), s("a/b"), s("a?b"), s("a#b"), s("é"), s("😀"), s(".."), "q".repeat(1024)],
         Pos::Label => vec![s("a b"), s("a+b"), s("a%b"), s("a&b=c"), s("a/b"), s("a?b"), s("a#b"), s("é"), s("😀"), s("a/../b"), "k".repeat(1024)],
-        Pos::Xml | Pos::Payload => vec![s(""), s(" a "), s(" "), s("\t\n"), s("<a&b>\"'"), s("]]>"), s("é😀"), s("a\tb\nc"), s("\r"), s("\u{85}"), s("\u{fffd}")],
+        // (an empty payload is indistinguishable from an absent one on the wire, so "" is not a payload value)
+        Pos::Payload => vec![s(" a "), s(" "), s("\t\n"), s("<a&b>\"'"), s("]]>"), s("é😀"), s("a\tb\nc"), s("\r"), s("\u{85}"), s("\u{fffd}")],
+        Pos::Xml => vec![s(""), s(" a "), s(" "), s("\t\n"), s("<a&b>\"'"), s("]]>"), s("é😀"), s("a\tb\nc"), s("\r"), s("\u{85}"), s("\u{fffd}")],
     }
 }
 
@@ -246,6 +248,8 @@ impl Gen for SelectObjectContentEventStream {
 /// field-wise comparison of operation inputs/outputs (stream members are compared by bytes elsewhere)
 pub trait FieldDiff {
     fn field_diff(&self, other: &Self) -> Vec<&'static str>;
+    /// optional members that are absent (None)
+    fn absent_fields(&self) -> Vec<&'static str>;
 }
 
 include!(concat!(env!("OUT_DIR"), "/dto_gen.rs"));
